@@ -14,6 +14,8 @@ The model is a transition system over the interleaved micro-steps of any number 
 * `beginClose`  `close()` starts (explicitly, or spawned by `Drop for Tree`)
 * `release`     `LockFile::release` — last step of `close()`
 * `crash`       the opener's process dies; the OS drops its lock
+* `failOpen`    `build()` returns an error after the lock was taken (recovery failed): everything the
+                half-built store owns, the lock included, is dropped
 
 Which steps of the real `open` / `close` are touches and where `acquire` / `release` sit among
 them is what the correspondence stream checks (trace of yield points per call).
@@ -36,7 +38,7 @@ structure LState where
 
 inductive LOp
   | begin (i : Nat) | tryLock (i : Nat) | touch (i : Nat) | finishOpen (i : Nat)
-  | beginClose (i : Nat) | release (i : Nat) | crash (i : Nat)
+  | beginClose (i : Nat) | release (i : Nat) | crash (i : Nat) | failOpen (i : Nat)
   deriving DecidableEq, Repr
 
 def LState.setPhase (s : LState) (i : Nat) (p : LPhase) : LState :=
@@ -74,5 +76,9 @@ def LState.step (s : LState) : LOp → LState
     | .closing => (s.dropLock i).setPhase i .closed
     | _ => s
   | .crash i => (s.dropLock i).setPhase i .dead
+  | .failOpen i =>
+    match s.phase i with
+    | .recovering => (s.dropLock i).setPhase i .closed
+    | _ => s
 
 def LState.run (s : LState) (ops : List LOp) : LState := ops.foldl LState.step s
